@@ -305,6 +305,34 @@ Theorem C05_pin_fence :
   lexer_fence_pattern = pinned_lexer_fence_pattern /\ lexer_token_patterns = pinned_lexer_token_patterns.
 Proof. exact (conj pin_lexer_fence_pattern pin_lexer_token_patterns). Qed.
 
+(* ---- ZONES NEXT TO ANY OTHER NODE, EVERY DEPTH (parser half, Rt/TokRoundZ*.v) ----------------------------------------------
+   corez = core2 documents whose assignments may also carry a keyed literal zone, at top level, in blocks and sections, first /
+   middle / last child, several per body.  From the token shape the lexer produces for the emitter's text (no INDENT on fence
+   lines; FENCE_OPEN with marker and tag, LITERAL_CONTENT with the raw content -- an ARBITRARY string, no condition at parser
+   level --, FENCE_CLOSE) the parser returns the document with content, tag and marker verbatim and no warning for the zone.
+   The extracted shape check implies the text-level round trip (C05_corez_shape_check_sound). *)
+From OV Require Rt.TokRound Rt.TokRound2 Rt.TokRound2Ex Rt.LexLinkBase Rt.TokRoundZ Rt.TokRoundZEx.
+Theorem C05_zones_with_siblings_readback_all_depths :
+  forall numcanon holo_ok strict sp alpha ml idnum d,
+    TokRoundZ.corez_doc d = true -> TokRoundZ.nums_ok2_l numcanon sp idnum (dsections d) -> Forall (TokRoundZ.field_num_ok numcanon) (dmeta d) ->
+    forall st0 ts tail, tail <> [] -> pbdepth st0 = 0%N -> Forall2 TokRound.tmatch ts (TokRoundZ.docz_sh ml idnum d) -> ptoks st0 = ts ++ tail ->
+    exists st', parse_document numcanon holo_ok strict sp alpha st0 = POk d st' /\ TokRoundZ.wext2 st0 st'.
+Proof. exact TokRoundZ.parse_corez_doc. Qed.
+
+Theorem C05_corez_shape_check_sound :
+  forall cls numcanon holo_ok strict d text,
+    TokRoundZEx.corez_shape_check cls d (LexLinkBase.lines_of text) = 1%N ->
+    TokRoundZ.nums_ok2_l numcanon (u_space cls) TokRound2Ex.ex_idnum (dsections d) -> Forall (TokRoundZ.field_num_ok numcanon) (dmeta d) ->
+    strip_frontmatter (u_space cls) (LexLinkBase.lines_of text) = (LexLinkBase.lines_of text, None) ->
+    exists warns, parse_model cls numcanon holo_ok strict (LexLinkBase.lines_of text) = PRDoc d [] warns /\ Forall TokRound.advisory warns.
+Proof. exact TokRoundZEx.corez_shape_check_sound. Qed.
+
+(* non-vacuity: depth 3, five zones (empty, tagged, hostile content with K::v / ===END=== / shorter backtick runs / tabs /
+   trailing blanks, a 5-backtick marker, content ending in a newline) next to comments, blocks and a section: the reader
+   model returns the document from the emitted text *)
+Theorem C05_zones_with_siblings_nonvacuous : TokRoundZEx.rtz TokRoundZEx.exz.
+Proof. exact TokRoundZEx.exz_roundtrip. Qed.
+
 (* ---- source-text pins (generated by harness/pinsets.py) ---- *)
 (* every function of these modules is, text for text (comments and docstrings excluded), the one the models of this
    property were written against and validated against: harness/translate/srcdigest_t.py, Src/Pin_*.v *)
